@@ -17,6 +17,9 @@
 (*         requested digest and which digests the scheme's standard        *)
 (*         verifier accepts for that signature (with the behaviour before  *)
 (*         the EdDSA full-length repair kept as a must-fail variant).      *)
+(* Part 4  fault extension for C11: a peer that goes silent after its k-th  *)
+(*         message, a single withheld message, contexts that end; every    *)
+(*         call whose context ended has returned at quiescence.            *)
 (* Short URLs: the prefix "type.googleapis.com/binance.tsslib." is dropped.*)
 (***************************************************************************)
 EXTENDS Integers, Sequences, FiniteSets, TLC
@@ -123,18 +126,27 @@ CONSTANTS Parties,        \* participants of the session
           MaxSpoof,       \* bound on adversarial transmissions
           TrustEmbedded,  \* FALSE = the code (attribution = transport sender; an envelope embedding a sender is not the wire
                           \* format and is dropped); TRUE = anti-vacuity variant (attribute to the embedded claim)
-          NearestIndex    \* FALSE = the code (the party index is found by exact match: a non-participant gets none and the
+          NearestIndex,   \* FALSE = the code (the party index is found by exact match: a non-participant gets none and the
                           \* library rejects it); TRUE = must-fail variant (index by lower-bound search without equality
                           \* check: a non-participant is filed under the smallest participant above it)
+          IgnoreCtx       \* fault extension (Part 4): FALSE = the code (the receive loop of KeyGen / Sign selects on ctx.Done());
+                          \* TRUE = must-fail variant (the loop ignores its context)
 
 VARIABLES step,   \* [Parties -> number of library steps emitted]
           net,    \* in-flight transmissions [from (transport sender), to, url, org (who produced the content), emb (embedded claim | 0)]
           got,    \* [Parties -> set of hand-overs to the library [att, tr, url, org, bc]]
           pin,    \* [Parties -> set of <<sender, round, url, org>>]: broadcast layer, one message per (sender, round)
           equiv,  \* set of <<receiver, sender, round>>: equivocation alarms of the broadcast layer
-          nsp
+          nsp,
+          \* fault extension (Part 4); constant in the fault-free model
+          fault,  \* the fault of this run: [kind, p, k, s, u, r]
+          pend,   \* [Parties -> messages of the current library step not yet handed to sendMsg]
+          sentc,  \* [Parties -> number of sendMsg calls so far]
+          ctxs,   \* [Parties -> "live" | "ended"]: the context of the party's KeyGen / Sign call
+          retv    \* [Parties -> "none" | "ok" | "err"]: what the call returned
 
-vars == <<step, net, got, pin, equiv, nsp>>
+fvars == <<fault, pend, sentc, ctxs, retv>>
+vars == <<step, net, got, pin, equiv, nsp, fault, pend, sentc, ctxs, retv>>
 
 Honest == Parties \ Byz
 Urls == {x.url : x \in Table}
@@ -147,8 +159,12 @@ HasAll(s, k) == \A q \in Parties \ {s} : \A u \in UrlsOf(k) :
 
 CanEmit(s) == step[s] < MaxStep /\ (step[s] = 0 \/ HasAll(s, step[s]))
 
-Init == /\ step = [p \in Parties |-> 0] /\ net = {} /\ got = [p \in Parties |-> {}] /\ pin = [p \in Parties |-> {}]
-        /\ equiv = {} /\ nsp = 0
+NoFault == [kind |-> "none", p |-> 0, k |-> 0, s |-> 0, u |-> "", r |-> 0]
+Init0 == /\ step = [p \in Parties |-> 0] /\ net = {} /\ got = [p \in Parties |-> {}] /\ pin = [p \in Parties |-> {}]
+         /\ equiv = {} /\ nsp = 0
+FInit0 == /\ pend = [p \in Parties |-> {}] /\ sentc = [p \in Parties |-> 0] /\ ctxs = [p \in Parties |-> "live"]
+          /\ retv = [p \in Parties |-> "none"]
+Init == Init0 /\ FInit0 /\ fault = NoFault
 
 Emit(s) == /\ CanEmit(s)
            /\ step' = [step EXCEPT ![s] = @ + 1]
@@ -187,9 +203,10 @@ Spoof(b, p, u, a, c) ==
   /\ nsp' = nsp + 1
   /\ UNCHANGED <<step, got, pin, equiv>>
 
-Next == \/ \E s \in Parties : Emit(s)
-        \/ \E m \in net : Deliver(m)
-        \/ \E b \in Byz \cup Outsiders, p \in Parties, u \in Urls, a \in Parties \cup Outsiders, c \in Parties \cup {0} : Spoof(b, p, u, a, c)
+Next0 == \/ \E s \in Parties : Emit(s)
+         \/ \E m \in net : Deliver(m)
+         \/ \E b \in Byz \cup Outsiders, p \in Parties, u \in Urls, a \in Parties \cup Outsiders, c \in Parties \cup {0} : Spoof(b, p, u, a, c)
+Next == Next0 /\ UNCHANGED fvars
 
 \* ---- invariants of the model ----------------------------------------------------------------------------------------
 SenderBinding == \A p \in Parties : \A g \in got[p] : g.att = g.tr
@@ -198,4 +215,71 @@ NoFalseEquivocation == \A e \in equiv : e[2] \notin Honest
 NoBroadcastOnP2PPath == \A p \in Parties : \A g \in got[p] : (g.org = g.att /\ g.att \in Honest) => g.bc = E(g.url).lib
 Quiescent == net = {} /\ \A s \in Parties : ~CanEmit(s)
 Totality == (Byz = {} /\ Outsiders = {} /\ Quiescent) => \A p \in Parties : step[p] = MaxStep /\ HasAll(p, MaxStep)
+
+\* ---- Part 4: fault extension (property C11 at the adapter level) --------------------------------------------------------
+\* KeyGen / Sign of every party run with a context.  One fault per run:
+\*   Vanish(p, k)      peer p goes silent after its k-th outgoing message (sendMsg call): later ones never leave
+\*   Withhold(s, u, r) the single message of type u from s to r is lost
+\*   Cancel(p)         nothing is lost; contexts may end at any point anyway (FCtxEnd), p is the party whose cancellation is timed
+\* A party hands the messages of a library step to sendMsg one by one (point-to-point: one call per receiver; broadcast: one call),
+\* in the order of the adapter's round numbers; a party that has returned does not consume any more, but what it had queued still
+\* goes out.  The receive loop returns an error once its context has ended (unless IgnoreCtx) or the result once it has everything.
+EmitCount(tb, n) == LET RECURSIVE Sum(_)
+                        Sum(S) == IF S = {} THEN 0 ELSE LET x == CHOOSE y \in S : TRUE IN (IF x.lib THEN 1 ELSE n - 1) + Sum(S \ {x})
+                    IN Sum(tb)
+FaultCases(tb, P) ==
+  {NoFault}
+  \cup {[kind |-> "vanish", p |-> p, k |-> k, s |-> 0, u |-> "", r |-> 0] : p \in P, k \in 0..EmitCount(tb, Cardinality(P))}
+  \cup UNION {{[kind |-> "withhold", p |-> 0, k |-> 0, s |-> s, u |-> x.url, r |-> r] : x \in tb, r \in P \ {s}} : s \in P}
+  \cup {[kind |-> "cancel", p |-> p, k |-> 0, s |-> 0, u |-> "", r |-> 0] : p \in P}
+
+StepMsgs(s, k) == {[url |-> u, to |-> IF E(u).lib THEN 0 ELSE q] : u \in UrlsOf(k), q \in Parties \ {s}}
+Before(a, b) == E(a.url).round < E(b.url).round \/ (E(a.url).round = E(b.url).round /\ a.to < b.to)
+NextMsg(s) == CHOOSE m \in pend[s] : \A o \in pend[s] \ {m} : Before(m, o)
+Silent(s) == fault.kind = "vanish" /\ fault.p = s /\ sentc[s] >= fault.k
+Lost(s, u, r) == fault.kind = "withhold" /\ fault.s = s /\ fault.u = u /\ fault.r = r
+
+FInit == Init0 /\ FInit0 /\ fault \in FaultCases(Table, Parties)
+
+FStart(s) == /\ retv[s] = "none" /\ pend[s] = {} /\ CanEmit(s)
+             /\ step' = [step EXCEPT ![s] = @ + 1]
+             /\ pend' = [pend EXCEPT ![s] = StepMsgs(s, step[s] + 1)]
+             /\ UNCHANGED <<net, got, pin, equiv, nsp, fault, sentc, ctxs, retv>>
+
+FSend(s) == /\ pend[s] # {}
+            /\ LET m == NextMsg(s)
+                    tos == IF m.to = 0 THEN Parties \ {s} ELSE {m.to} IN
+               /\ pend' = [pend EXCEPT ![s] = @ \ {m}]
+               /\ sentc' = [sentc EXCEPT ![s] = @ + 1]
+               /\ net' = IF Silent(s) THEN net
+                         ELSE net \cup {[from |-> s, to |-> q, url |-> m.url, org |-> s, emb |-> 0] : q \in {x \in tos : ~Lost(s, m.url, x)}}
+            /\ UNCHANGED <<step, got, pin, equiv, nsp, fault, ctxs, retv>>
+
+FDeliver(m) == IF retv[m.to] # "none"
+                 THEN m \in net /\ net' = net \ {m} /\ UNCHANGED <<step, got, pin, equiv, nsp, fvars>>     \* nobody consumes it
+                 ELSE Deliver(m) /\ UNCHANGED fvars
+
+Completed(p) == step[p] = MaxStep /\ pend[p] = {} /\ HasAll(p, MaxStep)
+FComplete(p) == /\ retv[p] = "none" /\ Completed(p)
+                /\ retv' = [retv EXCEPT ![p] = "ok"]
+                /\ UNCHANGED <<step, net, got, pin, equiv, nsp, fault, pend, sentc, ctxs>>
+FCtxEnd(p) == /\ ctxs[p] = "live" /\ retv[p] = "none"
+              /\ ctxs' = [ctxs EXCEPT ![p] = "ended"]
+              /\ UNCHANGED <<step, net, got, pin, equiv, nsp, fault, pend, sentc, retv>>
+FReturn(p) == /\ ~IgnoreCtx /\ ctxs[p] = "ended" /\ retv[p] = "none"
+              /\ retv' = [retv EXCEPT ![p] = "err"]
+              /\ UNCHANGED <<step, net, got, pin, equiv, nsp, fault, pend, sentc, ctxs>>
+
+FNext == \/ \E s \in Parties : FStart(s) \/ FSend(s) \/ FComplete(s) \/ FCtxEnd(s) \/ FReturn(s)
+         \/ \E m \in net : FDeliver(m)
+
+FQuiescent == /\ net = {} /\ \A s \in Parties : pend[s] = {} /\ ~(retv[s] = "none" /\ CanEmit(s))
+              /\ \A p \in Parties : ~(retv[p] = "none" /\ Completed(p)) /\ ~(ctxs[p] = "live" /\ retv[p] = "none")
+              /\ \A p \in Parties : IgnoreCtx \/ ~(ctxs[p] = "ended" /\ retv[p] = "none")
+\* every call whose context ended has returned (evaluated at quiescence: before, a return may still be on its way)
+EveryEndedCallReturned == FQuiescent => \A p \in Parties : ctxs[p] = "ended" => retv[p] # "none"
+ErrorUnlessCompletedM == \A p \in Parties : retv[p] = "ok" => Completed(p)
+ErrorOnlyAfterCtxEnd == \A p \in Parties : retv[p] = "err" => ctxs[p] = "ended"
+\* without a fault and with contexts that outlive the run, everybody completes
+FaultFreeCompletes == (fault.kind \in {"none", "cancel"} /\ FQuiescent /\ \A p \in Parties : ctxs[p] = "live") => \A p \in Parties : retv[p] = "ok"
 =============================================================================
